@@ -661,9 +661,9 @@ pub fn dom_tree_atomic(scenario: &str) -> Outcome {
 // C12 / C14 after DOM edit histories (bounded stand-in material): navigational views agree; keys of attached nodes are
 // non-zero and pairwise distinct
 
-pub const EDIT_SCENARIOS: [&str; 9] = [
+pub const EDIT_SCENARIOS: [&str; 12] = [
     "move_within_parent_before", "move_within_parent_append", "move_between_parents", "remove_then_reinsert",
-    "remove_subtree_drop_then_set_attribute", "remove_middle_subtree_drop_then_set_attribute", "replace_child", "append_fragment_like_sequence", "split_text_then_move",
+    "remove_subtree_drop_then_set_attribute", "remove_middle_subtree_drop_then_set_attribute", "replace_child", "append_fragment_like_sequence", "split_text_then_move", "append_new_after_child_with_descendants", "set_attribute_on_element_with_children", "insert_new_before_first_child",
 ];
 
 pub fn dom_after_edits(scenario: &str, what: &str) -> Outcome {
@@ -751,11 +751,34 @@ pub fn dom_after_edits(scenario: &str, what: &str) -> Outcome {
                     a.as_element().unwrap().append_child(n.as_node()).unwrap();
                 }
             }
+            "append_new_after_child_with_descendants" => {
+                let n = doc.create_element("n").unwrap();
+                r.append_child(n.as_node()).unwrap();
+            }
+            "set_attribute_on_element_with_children" => {
+                a.as_element().unwrap().set_attribute("k", "1").unwrap();
+            }
+            "insert_new_before_first_child" => {
+                let n = doc.create_element("n").unwrap();
+                r.insert_before(n.as_node(), Some(&a)).unwrap();
+            }
             _ => {
                 let t = a.child_nodes().item(1).unwrap().as_text().unwrap();
                 let t2 = t.split_text(0).unwrap();
                 r.append_child(t2.as_node()).unwrap();
             }
+        }
+        if what == "preorder" {
+            // element, then its attributes, then its children: keys strictly increasing along that walk
+            let mut all = vec![];
+            keys(&doc.as_node(), &mut all);
+            let mut bad = vec![];
+            for w in all.windows(2) {
+                if w[0].1 >= w[1].1 {
+                    bad.push(format!("{}={} is followed by {}={}", w[0].0, w[0].1, w[1].0, w[1].1));
+                }
+            }
+            return format!("disagreements: {:?}", bad);
         }
         if what == "views" {
             let mut bad = vec![];
